@@ -7,6 +7,19 @@ PKGS = {
 }
 
 PROPS = {
+    "C09": {
+        "harnesses": [
+            {"pkg": "bt", "name": "VH_C09_Stream", "quick": {"params": {"N": 14}}, "thorough": {"params": {"N": 22}}},
+            {"pkg": "bt", "name": "VH_C09_Bytes", "quick": {"params": {"N": 12}}, "thorough": {"params": {"N": 20}}},
+            {"pkg": "bt", "name": "VH_C09_Reader", "quick": {"params": {"N": 12}}, "thorough": {"params": {"N": 18}}},
+            {"pkg": "bt", "name": "VH_C09_Txs", "quick": {"params": {"N": 12}}, "thorough": {"params": {"N": 18}}},
+            {"pkg": "bt", "name": "VH_C09_InputOutput", "quick": {"params": {"N": 12}}, "thorough": {"params": {"N": 48}}},
+            {"pkg": "bt", "name": "VH_C09_Crafted", "quick": {"params": {"T": 2}}, "thorough": {"params": {"T": 6}}},
+            {"pkg": "bt", "name": "VH_C09_CraftedTxs", "quick": {"params": {"T": 4}}, "thorough": {"params": {"T": 8}}},
+        ],
+        "assumptions": [],
+        "bounds": {"quick": "", "thorough": ""},
+    },
     "C01": {
         "harnesses": [
             {"pkg": "bt", "name": "VH_C01_VarInt"},
